@@ -455,6 +455,8 @@ pub fn generate(family: &str, size: usize, seed: u64) -> Vec<String> {
         "fq_sweep" => fault_sweep("fq", &mut rng, size, &mut out),
         "w_fa" => writer_cases("fa", &mut rng, if size >= 100000 { 8 } else { 6 }, size, &mut out),
         "w_fq" => writer_cases("fq", &mut rng, 0, size, &mut out),
+        "par_x" => par_x(&mut rng, size, &mut out),
+        "par_y" => par_y(&mut rng, size, &mut out),
         _ => {
             eprintln!("unknown family {}", family);
             std::process::exit(2);
@@ -622,5 +624,69 @@ pub fn writer_cases(fmt: &str, rng: &mut Rng, maxlen: usize, nrand: usize, out: 
                 }
             }
         }
+    }
+}
+
+// ---------------------------------------------------------------- parallel cases
+
+pub fn par_x(rng: &mut Rng, size: usize, out: &mut Vec<String>) {
+    for i in 0..size {
+        let small = i % 2 == 0;
+        let t = if small { rng.range(1, 2) } else { rng.range(1, 4) };
+        let q = if small { rng.range(1, 2) } else { rng.range(1, 4) };
+        let n = if small { rng.below(4) } else { *rng.pick(&[0usize, 1, 2, 3, 5, 8, 20, 40]) };
+        let end_err = rng.chance(1, 3);
+        let ri_fail = rng.chance(1, 15);
+        let ds_fail = if rng.chance(1, 8) { Some(rng.below(q + 1)) } else { None };
+        let stop = if rng.chance(1, 2) { None } else { Some(rng.below(n + 2)) };
+        let cont = end_err && rng.chance(1, 2);
+        let o = |x: Option<usize>| x.map(|v| v.to_string()).unwrap_or("-".to_string());
+        out.push(format!(
+            "X {} {} {} {} {} {} {} {} {}",
+            t, q, n, end_err as u8, ri_fail as u8, o(ds_fail), o(stop), cont as u8, rng.next() % 1_000_000
+        ));
+    }
+}
+
+pub fn par_y(rng: &mut Rng, size: usize, out: &mut Vec<String>) {
+    for _ in 0..size {
+        let fmt = if rng.chance(1, 2) { "fa" } else { "fq" };
+        let mut input = vec![];
+        // several files glued only when valid: keep it simple, one generated file (0-8 records), often larger
+        let reps = *rng.pick(&[1usize, 1, 2, 4]);
+        let mutated = rng.chance(1, 4);
+        for r in 0..reps {
+            let mut f = rand_input(fmt, rng, 0);
+            if !f.is_empty() && *f.last().unwrap() != b'\n' {
+                f.push(b'\n');
+            }
+            // leading blank lines only in the first part
+            if r > 0 {
+                while f.first() == Some(&b'\n') || f.first() == Some(&b'\r') {
+                    f.remove(0);
+                }
+            }
+            if fmt == "fq" {
+                while f.ends_with(b"\n\n") {
+                    f.pop();
+                }
+                while f.ends_with(b"\r\n\r\n") {
+                    f.pop();
+                    f.pop();
+                }
+            }
+            input.extend(f);
+        }
+        if mutated {
+            mutate(rng, &mut input);
+        }
+        let t = rng.range(1, 4);
+        let q = rng.range(1, 3);
+        let cap = *rng.pick(&[3usize, 8, 16, 33, 64, 200, 4096]);
+        let stop = if rng.chance(1, 4) { Some(rng.range(1, 6)) } else { None };
+        out.push(format!(
+            "Y {} {} {} {} {} {}",
+            fmt, t, q, cap, stop.map(|v| v.to_string()).unwrap_or("-".to_string()), hex_or_dash(&input)
+        ));
     }
 }
